@@ -17,7 +17,7 @@ def methods_via_class(rep):
   behaviour (register the method, then its class: the method entry is renamed to Class.method) observed through
   every binding path."""
   from ginverif import adapter_register as R
-  for api in ('external', 'register'):
+  for api in ('external', 'register') * 3:        # three worlds per API: the method's real name rotates
     w = R.RegWorld()
     try:
       gin = w.gin
@@ -25,6 +25,7 @@ def methods_via_class(rep):
       assert w.register(dict(base, sel='m.meth', obj='meth', method='none', methodName=''), 'register') == 'ok'
       assert w.register(dict(base, sel='m.K', obj='K', method='m.meth', methodName='meth'), api) == 'ok'
       pre = w.prefix
+      mn = w.mname
       paths = {
           'string': lambda key: gin.bind_parameter(key + '.x', 5),
           'tuple': lambda key: gin.bind_parameter(('', key, 'x'), 5),
@@ -32,11 +33,12 @@ def methods_via_class(rep):
           'block': lambda key: gin.parse_config(key + ':\n  x = 5\n'),
           'query': lambda key: gin.query_parameter(key + '.x'),
       }
-      gin.bind_parameter(pre + '.K.meth.x', 1)
+      gin.bind_parameter(pre + '.K.' + mn + '.x', 1)
       for how, fn in paths.items():
-        for key, want in (('meth', 'ValueError'), (pre + '.meth', 'ValueError'), ('K.meth', 'ok'), (pre + '.K.meth', 'ok')):
+        for key, want in ((mn, 'ValueError'), (pre + '.' + mn, 'ValueError'), ('K.' + mn, 'ok'), (pre + '.K.' + mn, 'ok')):
           rep.evaluations += 1
           rep.nontrivial_case('method-addressing/%s/%s/%s' % (api, how, key.replace(pre, 'm')))
+          key_s = key.replace(pre, 'm')
           before = gin.config_str()
           try:
             fn(key)
@@ -51,9 +53,9 @@ def methods_via_class(rep):
                           dict(kind='method-addressing', api=api, path=how, key=key))
       # the binding reaches the method of instances built by the configurable class
       inst = gin.get_configurable(w.objs['K'])()
-      if inst.meth() != 5:
+      if getattr(inst, mn)() != 5:
         rep.violation(dict(kind='method-addressing', clause='injected-through-class'),
-                      dict(kind='method-addressing', api=api, got=inst.meth()))
+                      dict(kind='method-addressing', api=api, got=getattr(inst, mn)()))
       gin.clear_config()
     finally:
       w.close()
